@@ -20,9 +20,15 @@
    ([c_allow_over c = false]; the other tolerances arbitrary) and no master buffered, every element lies inside the byte range
    of each enclosing known-size master and the End of such a master is emitted exactly when its range is exhausted.
    PARTIAL only in this:
-     - the run-level statement (an independent checker over the yielded items and the input bytes, C06_run_extents) covers
-       the items yielded before the first error or try_recover call (all items of a drain, C06_run_all_extents); after errors
-       and recoveries the same facts are stated as an invariant of every reachable reader state together with what one
+     - the run-level statement over WHOLE runs, errors and recoveries included (C06_whole_run_extents: a relaxed checker
+       [chk_ext_run] over the complete outcome list and the input bytes, which at an error / try_recover outcome lets the
+       cursor move forward and - after a successful try_recover - the ends of all open known-size masters grow by the skipped
+       distance) needs the side condition [rec_sync]: try_recover is only called directly after an error, a None or another
+       try_recover (or first of all), i.e. never while already parsed items wait in the reader's queue; without it the
+       statement is false (C06_whole_run_stale_counterexample, C06_whole_run_stale_recovered_counterexample: the queued
+       items are handed out after the recovery although they were parsed before it).  Without any side condition: the strict checker [chk_ext] accepts the items yielded
+       before the first error or try_recover call (C06_run_extents; all items of a drain, C06_run_all_extents), and after
+       errors and recoveries the same facts hold as an invariant of every reachable reader state together with what one
        read_next call does in such a state (C06_contained, C06_reachable, C06_element_inside, C06_end_at_exhaustion);
      - a try_recover call that fails has skipped to the end of the input without enlarging the open masters: from then on the
        cursor may lie past the end of an open known-size master, whose End then comes late (nothing else can come: no input
@@ -32,7 +38,7 @@
        of this file) and the oversize-tolerant configuration is not covered; the statements are about the
        abstract reader (the buffered machine yields the same items, Proofs/Refine.v). *)
 From Ebml Require Import Base Tools Spec Reader Pure Proofs.RollUp Proofs.Nesting Proofs.BufferSim Proofs.Tiling Proofs.Extents
-  Proofs.AuditNesting Proofs.BufferedNesting Proofs.BufferSimErr Proofs.BufferedEof.
+  Proofs.ExtentsRun Proofs.AuditNesting Proofs.BufferedNesting Proofs.BufferSimErr Proofs.BufferedEof.
 
 (* For every input and every sequence of next() / try_recover() / drain operations (so also for the items that follow errors
    and recoveries), the emitted tags are accepted by the checker started with nothing determined and some base chain.  The
@@ -451,6 +457,130 @@ Example C06_ex_ranges_reject :
   chk_ext roomy [] 0 [(TStart 129, 0); (TStart 130, 2); (TElem 16641 (VU 5), 4); (TEnd 130, 2); (TEnd 129, 0); (TStart 129, 8);
                       (TEnd 129, 8)] = Some ([], 10).
 Proof. vm_compute. repeat split; reflexivity. Qed.
+
+(* ------------------------------------------------------------------ byte ranges over WHOLE runs (Proofs/ExtentsRun.v)
+   [chk_ext_run input open cur outs fin] judges the COMPLETE outcome list of a run - items, errors, try_recover outcomes, None -
+   against the input bytes; [open] and [cur] are as in [chk_ext], [fin] is the final (open, cur).  It is a relation (a Prop),
+   not a function, because the outcome list does not say how far an error or a recovery moved the cursor:
+     - an item is judged exactly as by [chk_ext] (C06_chk_ext_run_items): a Start / element begins at [cur], strictly before
+       the end of every open known-size master, its bytes (for a known-size master its whole declared range) end inside every
+       open known-size master; an End closes the innermost open master with its recorded offset, and the End of a known-size
+       master comes exactly when [cur] is the end of its range, unless the input is used up;
+     - at OErr, [cur] may move forward to any later position that is not past the end of an open known-size master (or lies
+       at / past the end of the input); the open masters are unchanged;
+     - at ORecOk (successful try_recover) there is ONE distance d > 0 by which the end of EVERY open known-size master grows
+       (this is what try_recover does: grow_frames), [cur] moves forward by at least d to a position not past the (grown) end
+       of an open known-size master (or at / past the end of the input);
+     - at ORecErr (failed try_recover) [cur] moves forward to a position at or past the end of the input, the open masters are
+       unchanged: from then on the End of a known-size master is accepted although its range is not exhausted (the late-End
+       exception of the header comment) and no Start / element is accepted any more (no header can be decoded there);
+     - ONone, OLimit, OPanic, OFuel change nothing.
+   [rec_sync false outs]: every ORecOk / ORecErr in [outs] is the first outcome or directly follows an OErr, an ONone or
+   another ORecOk / ORecErr - then the reader's queue is empty when try_recover is called. *)
+
+(* Oversized children not tolerated, nothing buffered, the other tolerances arbitrary, every input, every sequence of next() /
+   try_recover() / drain operations whose outcome list satisfies [rec_sync] (try_recover called only directly after an error, a
+   None or another try_recover, or first of all): the relaxed checker accepts the COMPLETE outcome list - errors and recoveries
+   included - started from offset 0 and a base of implied ancestors (offset 0, no range). *)
+Theorem C06_whole_run_extents : forall c input ops, c_allow_over c = false -> c_buffered c = [] ->
+  rec_sync false (p_run c input ops) = true ->
+  exists base fin, nobase base /\ chk_ext_run input base 0 (p_run c input ops) fin.
+Proof. exact whole_run_extents. Qed.
+
+(* on a list of items only, the relaxed checker is the strict checker [chk_ext] of C06_run_extents *)
+Theorem C06_chk_ext_run_items : forall input l open cur fin,
+  chk_ext_run input open cur (map (fun x => OItem (fst x) (snd x)) l) fin <-> chk_ext input open cur l = Some fin.
+Proof. exact chk_ext_run_items. Qed.
+
+(* the relaxed checker is compositional: judging a list is judging a prefix and then the rest from the state reached *)
+Theorem C06_chk_ext_run_app : forall input a b open cur fin,
+  chk_ext_run input open cur (a ++ b) fin <->
+  exists s, chk_ext_run input open cur a s /\ chk_ext_run input (fst s) (snd s) b fin.
+Proof. exact chk_ext_run_app. Qed.
+
+(* wherever it occurs in an accepted outcome list - so also after errors and recoveries - a Start / element item begins at the
+   checker's cursor and strictly before the end of every open known-size master *)
+Theorem C06_whole_run_item_begins : forall input t o open cur s, is_se t = true ->
+  ext_step input (OItem t o) (open, cur) s -> o = cur /\ ends_after o open = true.
+Proof. exact ext_step_item_begins. Qed.
+
+(* The relaxation is not vacuous.  Root(129) > Seg(130) > Val(16641); input: Root of known size 6, range [2, 8), Seg of unknown
+   size, Val at offset 4 (bytes [4, 8)), a second Val at offset 8 - outside the exhausted Root.  A hand-made outcome list with
+   an error after the first Val and then the second Val at offset 8 WITHOUT the Ends of Seg and Root is rejected whatever the
+   error is assumed to have consumed: the element lies outside the open known-size Root.  With the two Ends before it, it is
+   accepted. *)
+Example C06_whole_run_reject :
+  let late := [129; 134; 130; 255; 65; 1; 129; 5; 65; 1; 129; 6] in
+  (forall fin, ~ chk_ext_run late [] 0
+     [OItem (TStart 129) 0; OItem (TStart 130) 2; OItem (TElem 16641 (VU 5)) 4; OErr (RHierarchy 16641 None);
+      OItem (TElem 16641 (VU 6)) 8] fin) /\
+  chk_ext_run late [] 0
+     [OItem (TStart 129) 0; OItem (TStart 130) 2; OItem (TElem 16641 (VU 5)) 4; OErr (RHierarchy 16641 None);
+      OItem (TEnd 130) 2; OItem (TEnd 129) 0; OItem (TElem 16641 (VU 6)) 8] ([], 12).
+Proof. exact whole_run_reject_ex. Qed.
+
+(* A real run with an error and a successful try_recover inside a known-size master.  Root declares 14 content bytes, range
+   [2, 16); Seg of unknown size; Val 5 at [4, 8); at offset 8 a Val header declaring 9 payload bytes (invalid for an integer:
+   error, nothing consumed); try_recover skips 3 bytes to the Val at offset 11 and enlarges Root by 3, to [2, 19); Val 6 at
+   [11, 15) and Val 7 at [15, 19) follow - Val 7 lies outside the ORIGINAL range of Root and inside the enlarged one -, then the
+   input is used up and the Ends come.  The outcome list satisfies [rec_sync] and is accepted from the empty base, ending with
+   nothing open at offset 19 = |input|.  The same items WITHOUT the ORecOk outcome (no enlargement) are rejected: Val 7 overruns
+   Root. *)
+Example C06_whole_run_ex :
+  let sp := [ {| e_id := 129; e_ty := DMaster; e_path := [] |}; {| e_id := 130; e_ty := DMaster; e_path := [PId 129] |};
+              {| e_id := 16641; e_ty := DUInt; e_path := [PId 129; PId 130] |} ] in
+  let c := {| c_sp := sp; c_allow_id := false; c_allow_hier := false; c_allow_over := false; c_max := Some 4000000000;
+              c_buffered := []; c_emit_eof := true |} in
+  let input := [129; 142; 130; 255; 65; 1; 129; 5; 65; 1; 137; 65; 1; 129; 6; 65; 1; 129; 7] in
+  p_run c input [RAll; RRecover; RAll] =
+    [OItem (TStart 129) 0; OItem (TStart 130) 2; OItem (TElem 16641 (VU 5)) 4; OErr (RInvalidTagData 8 16641); ORecOk;
+     OItem (TElem 16641 (VU 6)) 11; OItem (TElem 16641 (VU 7)) 15; OItem (TEnd 130) 2; OItem (TEnd 129) 0; ONone] /\
+  rec_sync false (p_run c input [RAll; RRecover; RAll]) = true /\
+  chk_ext_run input [] 0 (p_run c input [RAll; RRecover; RAll]) ([], 19) /\
+  (forall fin, ~ chk_ext_run input [] 0
+     [OItem (TStart 129) 0; OItem (TStart 130) 2; OItem (TElem 16641 (VU 5)) 4; OErr (RInvalidTagData 8 16641);
+      OItem (TElem 16641 (VU 6)) 11; OItem (TElem 16641 (VU 7)) 15] fin).
+Proof. exact whole_run_accept_ex. Qed.
+
+(* The side condition [rec_sync] is needed.  Root of known size 6, range [2, 8), Seg, Val at [4, 8), an empty second Root at
+   offset 8, three more bytes.  The fourth next() finds Root exhausted and the second Root's header: it queues End Seg, End
+   Root, Start Root(8) and hands out End Seg.  try_recover is called NOW, with two parsed items still queued: it skips from
+   offset 10 to the end of the input and fails.  The drain then hands out the queued End Root and Start Root at offset 8 -
+   behind the cursor.  [rec_sync] is false, and the relaxed checker rejects the outcome list (from the empty base; the run
+   begins with a root element at offset 0): after ORecErr the cursor is at or past offset 13, the Start item is at 8. *)
+Example C06_whole_run_stale_counterexample :
+  let sp := [ {| e_id := 129; e_ty := DMaster; e_path := [] |}; {| e_id := 130; e_ty := DMaster; e_path := [PId 129] |};
+              {| e_id := 16641; e_ty := DUInt; e_path := [PId 129; PId 130] |} ] in
+  let c := {| c_sp := sp; c_allow_id := false; c_allow_hier := false; c_allow_over := false; c_max := Some 4000000000;
+              c_buffered := []; c_emit_eof := true |} in
+  let input := [129; 134; 130; 255; 65; 1; 129; 5; 129; 128; 255; 129; 128] in
+  let ops := [RNext; RNext; RNext; RNext; RRecover; RAll] in
+  p_run c input ops =
+    [OItem (TStart 129) 0; OItem (TStart 130) 2; OItem (TElem 16641 (VU 5)) 4; OItem (TEnd 130) 2;
+     ORecErr (REof 13 None None None); OItem (TEnd 129) 0; OItem (TStart 129) 8; OItem (TEnd 129) 8; ONone] /\
+  rec_sync false (p_run c input ops) = false /\
+  (forall fin, ~ chk_ext_run input [] 0 (p_run c input ops) fin).
+Proof. exact whole_run_stale_ex. Qed.
+
+(* The same with a try_recover that SUCCEEDS.  As above, but the second Root (offset 8) declares 7 content bytes, range
+   [10, 17), and is followed by a stray byte, a Seg header at 11 and a Val at [13, 17).  try_recover, called while End Root and
+   Start Root(8) are queued, skips the stray byte at offset 10 and stops at the Seg header at 11.  The queued End Root and
+   Start Root at offset 8 are handed out after ORecOk, then Seg at 11: the Start item at 8 lies behind every cursor position a
+   recovery that skipped at least one byte can have reached.  [rec_sync] is false and the relaxed checker rejects the list. *)
+Example C06_whole_run_stale_recovered_counterexample :
+  let sp := [ {| e_id := 129; e_ty := DMaster; e_path := [] |}; {| e_id := 130; e_ty := DMaster; e_path := [PId 129] |};
+              {| e_id := 16641; e_ty := DUInt; e_path := [PId 129; PId 130] |} ] in
+  let c := {| c_sp := sp; c_allow_id := false; c_allow_hier := false; c_allow_over := false; c_max := Some 4000000000;
+              c_buffered := []; c_emit_eof := true |} in
+  let input := [129; 134; 130; 255; 65; 1; 129; 5; 129; 135; 255; 130; 255; 65; 1; 129; 7] in
+  let ops := [RNext; RNext; RNext; RNext; RRecover; RAll] in
+  p_run c input ops =
+    [OItem (TStart 129) 0; OItem (TStart 130) 2; OItem (TElem 16641 (VU 5)) 4; OItem (TEnd 130) 2; ORecOk;
+     OItem (TEnd 129) 0; OItem (TStart 129) 8; OItem (TStart 130) 11; OItem (TElem 16641 (VU 7)) 13;
+     OItem (TEnd 130) 11; OItem (TEnd 129) 8; ONone] /\
+  rec_sync false (p_run c input ops) = false /\
+  (forall fin, ~ chk_ext_run input [] 0 (p_run c input ops) fin).
+Proof. exact whole_run_stale_ok_ex. Qed.
 
 (* ================================================================== buffered masters (Full items)
    Everything above assumes [c_buffered c = []]; with a buffered set the reader yields Full items, which [chk] rejects as such.
